@@ -11,11 +11,12 @@ EXTENDS TreeDefs
 CONSTANTS MaxN, MaxE, EObjs, Forget
 
 VARIABLES nodes, edges, nextN, nextE, eObj,
+          root,      \* the recorded root id (set by rootAt; plays no part in validity)
           acyclic,   \* GHOST: IsDagDef on the current graph
           cacheV, cacheR, res
 
-gvars == <<nodes, edges, nextN, nextE, eObj>>
-vars  == <<nodes, edges, nextN, nextE, eObj, acyclic, cacheV, cacheR, res>>
+gvars == <<nodes, edges, nextN, nextE, eObj, root>>
+vars  == <<nodes, edges, nextN, nextE, eObj, root, acyclic, cacheV, cacheR, res>>
 
 NodeIds == 0..(MaxN - 1)
 Objs    == EObjs \cup {None}
@@ -30,7 +31,7 @@ TypeOK ==
   /\ \A e, f \in DOMAIN eObj : e # f => eObj[e] # eObj[f]
   /\ cacheV \in BOOLEAN /\ cacheR \in BOOLEAN /\ acyclic \in BOOLEAN
 
-Init == /\ nodes = {} /\ edges = <<>> /\ nextN = 0 /\ nextE = 0 /\ eObj = <<>>
+Init == /\ nodes = {} /\ edges = <<>> /\ nextN = 0 /\ nextE = 0 /\ eObj = <<>> /\ root = 0
         /\ acyclic = TRUE /\ cacheV = FALSE /\ cacheR = FALSE /\ res = "ok"
 
 B(x)     == IF x THEN "T" ELSE "F"
@@ -45,14 +46,14 @@ WithObj(O, id, o) == IF o = None THEN O ELSE [e \in DOMAIN O \cup {id} |-> IF e 
 
 CreateNode ==
   /\ nextN < MaxN /\ nodes' = nodes \cup {nextN} /\ nextN' = nextN + 1
-  /\ Inval("CreateNode") /\ res' = "ok" /\ UNCHANGED <<edges, nextE, eObj>> /\ Ghost
+  /\ Inval("CreateNode") /\ res' = "ok" /\ UNCHANGED <<edges, nextE, eObj, root>> /\ Ghost
 
 \* addSon(a, b [, o]) and addFather(b, a [, o]) both create a -> b
 LinkPre(a, b, o) == a \in nodes /\ b \in nodes /\ ~Attached(o)
 LinkOk(a, b, o, name) ==
   /\ LinkPre(a, b, o) /\ nextE < MaxE
   /\ edges' = WithEdge(edges, nextE, a, b) /\ eObj' = WithObj(eObj, nextE, o) /\ nextE' = nextE + 1
-  /\ Inval(name) /\ res' = "ok" /\ UNCHANGED <<nodes, nextN>> /\ Ghost
+  /\ Inval(name) /\ res' = "ok" /\ UNCHANGED <<nodes, nextN, root>> /\ Ghost
 Link(a, b, o, name) ==
   IF LinkPre(a, b, o)
   THEN \/ LinkOk(a, b, o, name)
@@ -65,7 +66,7 @@ Unlink(a, b, name) ==
   IF a \in nodes /\ b \in nodes /\ Rel(edges, TRUE, a, b) # {}
   THEN /\ edges' = Restrict(edges, DOMAIN edges \ Rel(edges, TRUE, a, b))
        /\ eObj' = Restrict(eObj, DOMAIN eObj \ Rel(edges, TRUE, a, b))
-       /\ Inval(name) /\ res' = "ok" /\ UNCHANGED <<nodes, nextN, nextE>> /\ Ghost
+       /\ Inval(name) /\ res' = "ok" /\ UNCHANGED <<nodes, nextN, nextE, root>> /\ Ghost
   ELSE Raise
 RemoveSon(a, b)    == Unlink(a, b, "RemoveSon")
 RemoveFather(n, f) == Unlink(f, n, "RemoveFather")
@@ -75,7 +76,7 @@ DeleteNode(n) ==
   THEN LET gone == {e \in DOMAIN edges : n \in Unordered(edges[e])} IN
        /\ nodes' = nodes \ {n}
        /\ edges' = Restrict(edges, DOMAIN edges \ gone) /\ eObj' = Restrict(eObj, DOMAIN eObj \ gone)
-       /\ Inval("DeleteNode") /\ res' = "ok" /\ UNCHANGED <<nextN, nextE>> /\ Ghost
+       /\ Inval("DeleteNode") /\ res' = "ok" /\ UNCHANGED <<nextN, nextE, root>> /\ Ghost
   ELSE Raise
 
 \* rootAt(r): "re-root the DA with the new root (and make the graph a DA if it is not)".
@@ -87,7 +88,7 @@ DeleteNode(n) ==
 RootAtTo(r, E2) ==
   /\ Orientable(nodes, edges, r)
   /\ SameLinks(edges, E2) /\ HangsFrom(nodes, E2, r)
-  /\ edges' = E2 /\ Inval("RootAt") /\ res' = "okR" /\ UNCHANGED <<nodes, nextN, nextE, eObj>> /\ Ghost
+  /\ edges' = E2 /\ root' = r /\ Inval("RootAt") /\ res' = "okR" /\ UNCHANGED <<nodes, nextN, nextE, eObj>> /\ Ghost
 RootAt(r) ==
   IF r \notin nodes THEN Raise
   ELSE \E F \in SUBSET DOMAIN edges : RootAtTo(r, Flip(edges, F))
